@@ -133,6 +133,7 @@ class Coll(V):
         self.mem = mem
         self.items = items  # python list of V when concretely known (literal lists)
         self.nodup = nodup if nodup is not None else kind in ("set", "frozenset")
+        self.len_z = None  # symbolic length when known although the order/multiplicity is abstracted
 
     def __repr__(self):
         return f"Coll({self.kind},{self.esort})"
@@ -416,28 +417,50 @@ def expand_atoms(f, consts, cache=None, atom_terms=None):
     (equivalent under the axiom that the universe of names is exactly `consts`)."""
     cache = {} if cache is None else cache
 
+    def values(sort):
+        if sort == Atom:
+            return list(consts)
+        if sort == B:
+            return [z3.BoolVal(True), z3.BoolVal(False)]
+        if isinstance(sort, z3.DatatypeSortRef) and sort.num_constructors() == 1:
+            c = sort.constructor(0)
+            doms = [values(c.domain(i)) for i in range(c.arity())]
+            if any(d is None for d in doms):
+                return None
+            return [c(*combo) for combo in itertools.product(*doms)]
+        return None
+
     def rec(e):
         k = e.get_id()
         if k in cache:
             return cache[k][1]
         if z3.is_quantifier(e):
             n = e.num_vars()
-            if not e.is_lambda() and all(e.var_sort(i) == Atom for i in range(n)):
-                insts = []
-                for combo in itertools.product(consts, repeat=n):
-                    # de Bruijn: Var(0) is the LAST bound variable; substitute top-down so that
-                    # nested binders are handled by z3's own substitution
-                    insts.append(rec(z3.substitute_vars(e.body(), *reversed(combo))))
-                r = z3.And(*insts) if e.is_forall() else z3.Or(*insts)
+            doms = [values(e.var_sort(i)) for i in range(n)]
+            if e.is_lambda():
+                doms = [None] * n
+            size = 1
+            for d in doms:
+                size *= len(d) if d is not None else 1
+            if size > 4096:
+                doms = [None] * n
+            keep = [z3.Const(f"bv!{k}!{i}", e.var_sort(i)) if doms[i] is None else None for i in range(n)]
+            finite = [d for d in doms if d is not None]
+            insts = []
+            for combo in itertools.product(*finite):
+                it_ = iter(combo)
+                vals = [keep[i] if doms[i] is None else next(it_) for i in range(n)]
+                # de Bruijn: Var(0) is the LAST bound variable; substitute top-down so that nested
+                # binders are handled by z3's own substitution
+                b2 = rec(z3.substitute_vars(e.body(), *reversed(vals)))
+                kv = [v for v in keep if v is not None]
+                if kv:
+                    b2 = z3.Lambda(kv, b2) if e.is_lambda() else (z3.ForAll(kv, b2) if e.is_forall() else z3.Exists(kv, b2))
+                insts.append(b2)
+            if e.is_lambda():
+                r = insts[0]
             else:
-                vs = [z3.Const(f"bv!{k}!{i}", e.var_sort(i)) for i in range(n)]
-                b2 = rec(z3.substitute_vars(e.body(), *reversed(vs)))
-                if e.is_lambda():
-                    r = z3.Lambda(vs, b2)
-                elif e.is_forall():
-                    r = z3.ForAll(vs, b2)
-                else:
-                    r = z3.Exists(vs, b2)
+                r = z3.And(*insts) if e.is_forall() else z3.Or(*insts)
         elif z3.is_app(e) and e.num_args() > 0:
             ch = [rec(c) for c in e.children()]
             r = e.decl()(*ch) if not z3.is_and(e) and not z3.is_or(e) else (z3.And(*ch) if z3.is_and(e) else z3.Or(*ch))
@@ -1034,6 +1057,142 @@ class Executor:
         out.append((st, NORMAL))
         return out
 
+    def foreach_summary(self, node, it, st):
+        """Parallel-loop rule (generalised accumulator loop, DESIGN §1):
+            for x in S: <body whose only side effects are emissions T.add/append/update/extend(v) or `yield v`>
+        The body is executed symbolically once for an arbitrary x in S on a copy of the state; every path i
+        yields (cond_i, emitted values).  Then  T := T ∪ {v | ∃x∈S ∃fresh. cond_i ∧ v = val_i}.
+        Not applicable (returns False) when the body reads an emission target, mutates anything else,
+        or leaves by break/return/raise."""
+        assigned, mutated = self.modified_names(node.body)
+        emit_names = set()
+        has_yield = False
+        for n in ast.walk(ast.Module(body=list(node.body), type_ignores=[])):
+            if isinstance(n, ast.Call) and isinstance(n.func, ast.Attribute) and n.func.attr in ("add", "append", "update", "extend") \
+                    and isinstance(n.func.value, ast.Name):
+                emit_names.add(n.func.value.id)
+            if isinstance(n, (ast.Yield, ast.YieldFrom)):
+                has_yield = True
+            if isinstance(n, (ast.Break, ast.Return, ast.Raise)):
+                return False
+        if has_yield:
+            emit_names.add("__yield__")
+            st.env.setdefault("__yield__", Coll("list", None, None, items=[]))
+        if not emit_names or (mutated - emit_names):
+            return False
+        reads = set()
+        for n in ast.walk(ast.Module(body=list(node.body), type_ignores=[])):
+            if isinstance(n, ast.Name) and isinstance(n.ctx, ast.Load):
+                reads.add(n.id)
+        # a target may only appear as receiver of an emission
+        n_recv = {}
+        for n in ast.walk(ast.Module(body=list(node.body), type_ignores=[])):
+            if isinstance(n, ast.Call) and isinstance(n.func, ast.Attribute) and isinstance(n.func.value, ast.Name) \
+                    and n.func.value.id in emit_names and n.func.attr in ("add", "append", "update", "extend"):
+                n_recv[n.func.value.id] = n_recv.get(n.func.value.id, 0) + 1
+        for t in emit_names - {"__yield__"}:
+            cnt = sum(1 for n in ast.walk(ast.Module(body=list(node.body), type_ignores=[])) if isinstance(n, ast.Name) and n.id == t)
+            if cnt != n_recv.get(t, 0):
+                return False
+            if not isinstance(st.env.get(t), Coll) or st.env[t].kind not in ("set", "list"):
+                return False
+        if assigned & emit_names:
+            return False
+        c0 = next(_fresh)
+        x = fresh("it", it.esort)
+        s2 = st.fork()
+        for t in emit_names:
+            s2.env[t].recording = []
+        s2.assume(it.mem[x])
+        base = len(s2.pc)
+        self.assign(node.target, val_of(x), s2)
+        saved_obs = len(self.obligations)
+        try:
+            outs = self.exec_block(node.body, s2)
+        except Unsupported:
+            del self.obligations[saved_obs:]
+            return False
+        if any(o.kind not in ("normal", "continue") for _, o in outs):
+            del self.obligations[saved_obs:]
+            return False
+        emissions = {t: [] for t in emit_names}
+        for s_i, _ in outs:
+            cond = z3.And(*s_i.pc[base:]) if len(s_i.pc) > base else z3.BoolVal(True)
+            # per-iteration fresh *arrays* (e.g. the arbitrary orientation chosen by combinations()) would have
+            # to be quantified existentially (second order): not summarised, the loop then needs an invariant
+            if any(isinstance(c.sort(), z3.ArraySortRef) for c in self.fresh_consts_in(cond, c0)):
+                del self.obligations[saved_obs:]
+                return False
+            for t in emit_names:
+                for kind, val in s_i.env[t].recording:
+                    emissions[t].append((cond, kind, val))
+        for t, ems in emissions.items():
+            if not ems:
+                continue
+            T = st.env[t]
+            esort = None
+            for cond, kind, val in ems:
+                esort = val.sort() if kind == "elem" else val.sort().domain()
+            if T.mem is None and getattr(T, "recording", None) is None:
+                T.esort, T.mem = esort, empty_set(esort)
+            if T.esort is None:
+                T.esort = esort
+            if T.esort != esort:
+                raise Unsupported("emission element sort mismatch")
+            y = fresh("y", esort)
+            disj = []
+            for cond, kind, val in ems:
+                body = z3.And(it.mem[x], cond, deq(y, val) if kind == "elem" else val[y])
+                bound = [x] + [c for c in self.fresh_consts_in(body, c0) if not c.eq(x) and not c.eq(y)]
+                disj.append(z3.Exists(bound, body))
+            if getattr(T, "recording", None) is not None:
+                # nested summarised loop inside a summarised loop: emit the whole set to the outer recorder
+                T.recording.append(("coll", z3.Lambda([y], z3.Or(*disj))))
+                continue
+            old = T.mem
+            T.mem = z3.Lambda([y], z3.Or(old[y], *disj))
+            T.items = None
+            if T.kind == "list":
+                T.nodup = False
+                T.len_z = None
+        for a in assigned:
+            st.env.pop(a, None) if a not in st.env else None
+        self.assumed.add("parallel-loop rule (DESIGN §1): a for-loop whose body only emits values (add/append/update/extend/yield) and "
+                         "mutates nothing else is summarised as T ∪ {v | ∃x∈S. path-condition ∧ v = emitted value}")
+        return True
+
+    def fresh_consts_in(self, e, c0):
+        """uninterpreted constants created after counter c0 (named name!k with k >= c0) occurring in e."""
+        out, seen = {}, set()
+
+        def rec(t):
+            k = t.get_id()
+            if k in seen:
+                return
+            seen.add(k)
+            if z3.is_quantifier(t):
+                rec(t.body())
+            elif z3.is_app(t):
+                if t.num_args() == 0 and t.decl().kind() == z3.Z3_OP_UNINTERPRETED:
+                    nm = t.decl().name()
+                    if "!" in nm:
+                        try:
+                            if int(nm.rsplit("!", 1)[1]) >= c0:
+                                out[nm] = t
+                        except ValueError:
+                            pass
+                for ch in t.children():
+                    rec(ch)
+
+        rec(e)
+        return list(out.values())
+
+    def ex_Yield(self, node, st):
+        v = self.ev(node.value, st) if node.value is not None else NONE
+        tgt = st.env.setdefault("__yield__", Coll("list", None, None, items=[]))
+        self.coll_method(tgt, "append", [v], {}, st)
+        return NONE
+
     def accumulator_summary(self, node, it, st):
         """`for x in S: [if g(x):] T.add(f(x)) | T.update(h(x)) | G.add_edge(..)`  with pure f,g,h not reading T.
         Summarised as T := T ∪ {f(x) | x∈S ∧ g(x)}.  Returns True if applied."""
@@ -1073,10 +1232,13 @@ class Executor:
         x = fresh("it", it.esort)
         s2 = st.fork()
         self.assign(node.target, val_of(x), s2)
+        s2.assume(it.mem[x])
         try:
             g = z3.BoolVal(True) if guard is None else self.truth_z(s2, self.ev(guard, s2))
         except NeedSplit:
             return False
+        s2.assume(g)
+        npc = len(s2.pc)
         for c in calls:
             T = st.env[c.func.value.id]
             e = self.ev(c.args[0], s2)
@@ -1100,6 +1262,8 @@ class Executor:
             T.items = None
             if c.func.attr in ("append", "extend"):
                 T.nodup = False
+        if len(s2.pc) != npc:
+            raise Unsupported("accumulator body introduces assumptions about per-iteration values")
         self.assumed.add("accumulator-loop rule (DESIGN §1): for x in S: [if g(x):] T.add(f(x)) == T ∪ {f(x)|x∈S∧g(x)}")
         return True
 
@@ -1125,7 +1289,7 @@ class Executor:
                             out.append((s2, o))
                 states = nxt
             return out + [(s, NORMAL) for s in states]
-        if self.accumulator_summary(node, it, st):
+        if self.foreach_summary(node, it, st):
             return [(st, NORMAL)]
         k = self.next_loop_id(node)
         if self.dry:
@@ -1795,6 +1959,17 @@ class Executor:
 
     # ------------------------------------------------------------------ collection methods
     def coll_method(self, c, name, args, kwargs, st):
+        rec = getattr(c, "recording", None)
+        if rec is not None:
+            if name in ("add", "append"):
+                rec.append(("elem", z3_of(args[0])))
+                return NONE
+            if name in ("update", "extend") and len(args) == 1:
+                o = self.as_coll(args[0], st)
+                if o.mem is not None:
+                    rec.append(("coll", o.mem))
+                return NONE
+            raise Unsupported(f"emission target used for {name} inside a summarised loop")
         es = c.esort
         if name == "add" or name == "append":
             z = z3_of(args[0])
